@@ -1216,6 +1216,92 @@ def _split_tensordict(
     return _split_generator()
 
 
+# The three signatures of ``torch._C._nn._parse_to`` (positional names, number of required arguments):
+#   to(Device? device=None, ScalarType? dtype=None, bool non_blocking=False, bool copy=False, *, MemoryFormat? memory_format=None)
+#   to(ScalarType dtype, bool non_blocking=False, bool copy=False, *, MemoryFormat? memory_format=None)
+#   to(Tensor tensor, bool non_blocking=False, bool copy=False, *, MemoryFormat? memory_format=None)
+_PARSE_TO_SIGNATURES = (
+    (("device", "dtype", "non_blocking", "copy"), 0),
+    (("dtype", "non_blocking", "copy"), 1),
+    (("tensor", "non_blocking", "copy"), 1),
+)
+
+
+def _parse_to_arg_ok(name, value, optional):
+    if name == "device":
+        return value is None or (
+            isinstance(value, (str, torch.device, int)) and not isinstance(value, bool)
+        )
+    if name == "dtype":
+        return isinstance(value, torch.dtype) or (optional and value is None)
+    if name == "tensor":
+        # the native parser wraps python numbers in a (cpu) tensor
+        return isinstance(value, (Tensor, bool, int, float))
+    if name == "memory_format":
+        return value is None or isinstance(value, torch.memory_format)
+    # non_blocking, copy
+    return isinstance(value, bool)
+
+
+def _parse_to_py(args, kwargs):
+    """A python twin of ``torch._C._nn._parse_to``, which torch.compile cannot trace.
+
+    Returns ``(device, dtype, non_blocking, memory_format)`` for the first signature that the
+    call matches, and raises like the native parser otherwise.
+    """
+    for names, num_required in _PARSE_TO_SIGNATURES:
+        if len(args) > len(names):
+            continue
+        bound = {}
+        ok = True
+        for i in range(len(args)):
+            bound[names[i]] = args[i]
+        for key in kwargs:
+            if key in bound or (key not in names and key != "memory_format"):
+                ok = False
+                break
+            bound[key] = kwargs[key]
+        if not ok:
+            continue
+        for i in range(num_required):
+            if names[i] not in bound:
+                ok = False
+        for key in bound:
+            if not _parse_to_arg_ok(key, bound[key], optional=num_required == 0):
+                ok = False
+        if not ok:
+            continue
+        if "copy" in bound:
+            raise RuntimeError(".to() does not accept copy argument")
+        if "tensor" in bound:
+            tensor = bound["tensor"]
+            if isinstance(tensor, Tensor):
+                device = tensor.device
+                dtype = tensor.dtype
+            else:
+                device = torch.device("cpu")
+                if isinstance(tensor, bool):
+                    dtype = torch.bool
+                elif isinstance(tensor, int):
+                    dtype = torch.int64
+                else:
+                    dtype = torch.float64
+        else:
+            device = bound.get("device")
+            if device is not None:
+                device = torch.device(device)
+            dtype = bound.get("dtype")
+        return (
+            device,
+            dtype,
+            bound.get("non_blocking", False),
+            bound.get("memory_format"),
+        )
+    raise TypeError(
+        f"to() received an invalid combination of arguments - got args={args}, kwargs={kwargs}."
+    )
+
+
 def _parse_to(*args, **kwargs):
     batch_size = kwargs.pop("batch_size", None)
     non_blocking_pin = kwargs.pop("non_blocking_pin", False)
@@ -1227,19 +1313,7 @@ def _parse_to(*args, **kwargs):
             *args, **kwargs
         )
     else:
-        non_blocking = kwargs.get("non_blocking", False)
-        convert_to_format = kwargs.get("convert_to_format")
-        if len(args) > 0:
-            device = torch.device(args[0])
-            if len(args) > 1:
-                dtype = args[1]
-            else:
-                dtype = kwargs.get("dtype")
-        else:
-            device = kwargs.get("device")
-            dtype = kwargs.get("dtype")
-        if device is not None:
-            device = torch.device(device)
+        device, dtype, non_blocking, convert_to_format = _parse_to_py(args, kwargs)
 
     if device and device.type == "cuda" and device.index is None:
         device = torch.device(f"cuda:{torch.cuda.current_device()}")
